@@ -4,11 +4,15 @@ set_option linter.unusedSimpArgs false
 namespace GrVerif.Action
 open GrVerif.Vm GrVerif.Seg GrVerif.Gen.Vm
 
+/-- the high-water mark, when set, is a slot of the stream -/
+def HwOK (h : Option Nat) (l : List Nat) : Prop := ∀ x, h = some x → x ∈ l
+
 /-- the stream invariant of a rule context: `l` is the glyph stream -/
 structure J (c : Ctx) (l : List Nat) : Prop where
   linked : Linked c.seg l
   clean : Clean c.seg l
   isok : IsOK c.seg l c.is
+  hw : HwOK c.highwater l
 
 def PS (c : Ctx) : Prop := ∃ l, J c l
 
@@ -28,7 +32,7 @@ theorem _root_.GrVerif.Seg.Linked.addGlyphs {s : Seg} {l : List Nat} (h : Linked
 
 theorem die_PS (c : Ctx) (h : PS c) : OutcomeP PS (die c) := by
   obtain ⟨l, hj⟩ := h
-  exact ⟨l, ⟨hj.linked, hj.clean, isok_last hj.linked⟩⟩
+  exact ⟨l, ⟨hj.linked, hj.clean, isok_last hj.linked, hj.hw⟩⟩
 
 /-- the `next` pointer of a stream slot leads to a stream slot or to null -/
 theorem next_in {s : Seg} {l : List Nat} (h : Linked s l) {i : Nat} (hi : i ∈ l) : IsOK s l (s.get i).next := by
@@ -45,17 +49,17 @@ theorem next_PS (c : Ctx) (h : PS c) : OutcomeP PS (opNext c) := by
   · obtain ⟨l, hj⟩ := h
     split
     · rename_i i heq
-      refine ⟨l, ⟨by simpa using hj.linked, by simpa using hj.clean, ?_⟩⟩
+      refine ⟨l, ⟨by simpa using hj.linked, by simpa using hj.clean, ?_, by simpa using hj.hw⟩⟩
       simp only [setMap_seg, setIs_seg, markHighpassed_seg, setMap_is, setIs_is]
       have hio := hj.isok
       rw [heq] at hio
-      rcases hio with h0 | ⟨i', h1, h2⟩ | ⟨d, h1, h2, h3, h4⟩
+      rcases hio with h0 | ⟨i', h1, h2⟩ | ⟨d, h1, h2, h3, h4, h5⟩
       · cases h0
       · cases h1; exact next_in hj.linked h2
       · cases h1
         rw [h4]
         exact isok_opt_mem (fun x hx => head?_mem hx)
-    · exact ⟨l, ⟨hj.linked, hj.clean, hj.isok⟩⟩
+    · exact ⟨l, ⟨hj.linked, hj.clean, hj.isok, hj.hw⟩⟩
 
 /-- `delete_` -/
 theorem delete_PS (c : Ctx) (h : PS c) : OutcomeP PS (opDelete c) := by
@@ -71,7 +75,7 @@ theorem delete_PS (c : Ctx) (h : PS c) : OutcomeP PS (opDelete c) := by
       have hil : i ∈ l := by
         have hio := hj.isok
         rw [heq] at hio
-        rcases hio with h0 | ⟨i', h1, h2⟩ | ⟨d, h1, h2, h3, h4⟩
+        rcases hio with h0 | ⟨i', h1, h2⟩ | ⟨d, h1, h2, h3, h4, h5⟩
         · cases h0
         · cases h1; exact h2
         · cases h1; exact absurd h3 hdel
@@ -103,7 +107,7 @@ theorem delete_PS (c : Ctx) (h : PS c) : OutcomeP PS (opDelete c) := by
         rcases List.mem_append.mp hx with hx | hx
         · exact List.mem_append_left _ hx
         · exact List.mem_append_right _ (List.mem_cons_of_mem _ hx)
-      refine ⟨a ++ b, ⟨?_, ?_, ?_⟩⟩
+      refine ⟨a ++ b, ⟨?_, ?_, ?_, ?_⟩⟩
       · simp only [setIs_seg, withSeg_seg, moveHighwater_seg]
         exact (l1.same ssd).addGlyphs _
       · simp only [setIs_seg, withSeg_seg, moveHighwater_seg]
@@ -134,20 +138,36 @@ theorem delete_PS (c : Ctx) (h : PS c) : OutcomeP PS (opDelete c) := by
         · subst ha
           simp only [List.getLast?_nil, List.nil_append]
           rw [heq]
-          refine .inr (.inr ⟨i, rfl, hib, ?_, ?_⟩)
+          refine .inr (.inr ⟨i, rfl, hib, ?_, ?_, ?_⟩)
           · simp only [addGlyphs_get]; rw [(ssd.slot i).2.2.1, gi]; rfl
           · simp only [addGlyphs_get]; rw [(ssd.slot i).1, gi]; simpa using hmid.2.1
+          · simp only [addGlyphs_get]; rw [(ssd.slot i).2.1, gi]; simpa using hmid.1
         · rw [List.concat_eq_append] at ha
           subst ha
           rw [getLast?_concat']
           exact .inr (.inl ⟨x, rfl, by simp⟩)
-
+      · -- the high-water mark moves on when its own slot is deleted, and otherwise was not the deleted slot
+        simp only [setIs_highwater, withSeg_highwater]
+        rw [moveHighwater_highwater]
+        intro x hx
+        split at hx
+        · -- it now is the successor of the deleted slot
+          rw [hmid.2.1] at hx
+          exact List.mem_append_right _ (head?_mem hx)
+        · rename_i hne
+          have hxl := hj.hw x hx
+          have hxi : x ≠ i := fun e => hne (by rw [heq, hx, e])
+          rcases List.mem_append.mp hxl with h1 | h1
+          · exact List.mem_append_left _ h1
+          · rcases List.mem_cons.mp h1 with h2 | h2
+            · exact absurd h2 hxi
+            · exact List.mem_append_right _ h2
 
 /-- where `insert` puts the new slot: in front of the current slot, of the first slot when the current one is the
 deleted former first slot, or at the end -/
 theorem skip_split {s : Seg} {l : List Nat} {is : Option Nat} (hc : Clean s l) (hi : IsOK s l is) (fuel : Nat) :
     ∃ a b, l = a ++ b ∧ skipDeleted s (fuel + 2) is = b.head? := by
-  rcases hi with h0 | ⟨i, h1, h2⟩ | ⟨d, h1, h2, h3, h4⟩
+  rcases hi with h0 | ⟨i, h1, h2⟩ | ⟨d, h1, h2, h3, h4, h5⟩
   · subst h0
     exact ⟨l, [], by simp, by simp [skipDeleted]⟩
   · subst h1
@@ -166,7 +186,7 @@ theorem skip_split {s : Seg} {l : List Nat} {is : Option Nat} (hc : Clean s l) (
 theorem insert_PS (c : Ctx) (h : PS c) : OutcomeP PS (opInsert c) := by
   unfold opInsert
   simp only []
-  have h' : PS (c.setMaxSize (c.maxSize - 1)) := by obtain ⟨l, hj⟩ := h; exact ⟨l, ⟨hj.linked, hj.clean, hj.isok⟩⟩
+  have h' : PS (c.setMaxSize (c.maxSize - 1)) := by obtain ⟨l, hj⟩ := h; exact ⟨l, ⟨hj.linked, hj.clean, hj.isok, hj.hw⟩⟩
   split
   · exact die_PS _ h'
   · split
@@ -186,7 +206,7 @@ theorem insert_PS (c : Ctx) (h : PS c) : OutcomeP PS (opInsert c) := by
         rcases List.mem_append.mp hx with hx | hx
         · exact List.mem_append_left _ hx
         · exact List.mem_append_right _ (List.mem_cons_of_mem _ hx)
-      refine ⟨a ++ k :: b, ⟨?_, ?_, ?_⟩⟩
+      refine ⟨a ++ k :: b, ⟨?_, ?_, ?_, ?_⟩⟩
       · simp only [setMap_seg, setIs_seg, withSeg_seg]
         exact l2.addGlyphs _
       · simp only [setMap_seg, setIs_seg, withSeg_seg]
@@ -222,5 +242,8 @@ theorem insert_PS (c : Ctx) (h : PS c) : OutcomeP PS (opInsert c) := by
           simp only [List.length_append, List.length_cons]; omega
       · simp only [setMap_seg, setIs_seg, withSeg_seg, setMap_is, setIs_is]
         exact .inr (.inl ⟨k, rfl, by simp⟩)
+      · simp only [setMap_highwater, setIs_highwater, withSeg_highwater, markHighpassed_highwater, setMaxSize_highwater]
+        intro x hx
+        exact hsub x (hj.hw x hx)
 
 end GrVerif.Action
